@@ -40,8 +40,8 @@ Definition is_local (local_ids : list Z) (id : Z) : bool := existsb (fun l => l 
 Definition accept_synchronization (local_stratum : Z) (local_ids : list Z) (s : snap)
   : option accept_error (* None = Ok(()) *) :=
   if s_stratum s >=? local_stratum then Some Stratum
-  else if existsb (fun l => (l =? s_source_id s) ||
-                            (negb (s_stratum s =? 1) && (l =? s_reference_id s))) local_ids
+  else if negb (s_stratum s =? 1) &&
+          existsb (fun l => (l =? s_source_id s) || (l =? s_reference_id s)) local_ids
   then Some Loop
   else match s_bloom s with
        | Some true => Some Loop
@@ -129,11 +129,37 @@ Definition err_code (e : option accept_error) : Z :=
 Definition bloom_of_code (c : Z) : option bool :=
   if c =? 0 then None else Some (c =? 2).
 
+(* end to end: NtpManager + real sources.  A source is (clock id, source id, mode, stratum, refid):
+   mode 0 created only, 1 one timer, 2 one timer and a usable answer reporting (stratum, refid) *)
+Definition e2e_src : Type := Z * Z * Z * Z * Z.
+
+Definition new_source_snap (sid : Z) : snap := mkSnap 16 sid REFID_NONE 0 None.   (* NtpSource::new, reach polled once *)
+
+Definition e2e_final (x : e2e_src) : option snap :=
+  match x with (_, sid, mode, st, rid) =>
+    if mode =? 0 then None
+    else if mode =? 1 then Some (new_source_snap sid)
+    else Some (mkSnap st sid rid 1 None)
+  end.
+
+Definition e2e_flags (ls : Z) (ids : list Z) (x : e2e_src) : list Z :=
+  match x with (_, sid, mode, st, rid) =>
+    [if mode =? 0 then -1 else b2z (usable ls ids (new_source_snap sid));
+     if mode <? 2 then -1 else b2z (usable ls ids (mkSnap st sid rid 1 None))]
+  end.
+
+Definition e2e_table (srcs : list e2e_src) : list (Z * source_snapshot) :=
+  flat_map (fun x => match e2e_final x with
+                     | Some s => [(fst (fst (fst (fst x))), SNtp s None)]
+                     | None => []
+                     end) srcs.
+
 Inductive c33case :=
 | CAccept (local_stratum : Z) (local_ids : list Z) (st sid rid reach bloom : Z)
 | CAdvertise (local_stratum : Z)
              (table : list (Z * (Z * Z)))            (* clock id -> (stratum, source id) of reported NTP sources *)
-             (updates : list (list (Z * Z))).        (* successive used lists: (clock id, type code 0 pps 1 sock 2 ntp 3 csptp) *)
+             (updates : list (list (Z * Z)))         (* successive used lists: (clock id, type code 0 pps 1 sock 2 ntp 3 csptp) *)
+| CEndToEnd (local_stratum : Z) (local_ids : list Z) (srcs : list e2e_src) (updates : list (list (Z * Z))).
 
 Definition type_of_code (c : Z) : source_type :=
   match c with 0 => TPps | 1 => TSock | 2 => TNtp | _ => TCsptp end.
@@ -147,7 +173,9 @@ Fixpoint run_updates (ls : Z) (table : list (Z * source_snapshot)) (pub : ntp_sn
   | [] => []
   | u :: r =>
       match update_used_sources ls [] table pub (map (fun e => (fst e, type_of_code (snd e))) u) with
-      | Ok p => [a_stratum p; a_reference_id p] ++ run_updates ls table p r
+      | Ok p => [a_stratum p; a_reference_id p;
+                 match contains_id (a_filter p) [] with Ok b => b2z b | _ => -99 end]
+                ++ run_updates ls table p r
       | _ => [-99]
       end
   end.
@@ -158,4 +186,7 @@ Definition run_c33 (c : c33case) : list Z :=
       [err_code (accept_synchronization ls ids (mkSnap st sid rid reach (bloom_of_code bl)))]
   | CAdvertise ls t ups =>
       run_updates ls (mk_table t) (mkNtp DEFAULT_SNAPSHOT_STRATUM REFID_NONE bf_new) ups
+  | CEndToEnd ls ids srcs ups =>
+      flat_map (e2e_flags ls ids) srcs ++
+      run_updates ls (e2e_table srcs) (mkNtp DEFAULT_SNAPSHOT_STRATUM REFID_NONE bf_new) ups
   end.
